@@ -91,6 +91,10 @@ pub fn c01(f: &Facts, o: &Outcome) -> Vec<String> {
     let auth_failed = !auth_calls.is_empty() && f.sc.verdicts.auth.is_err();
     if (enc_bad || auth_failed) && granted { why.push("Login Success / auth cookie / Transfer sent although authentication failed".into()); }
     if (enc_bad || auth_failed) && !o.result.starts_with("err") { why.push(format!("connection did not end with an error after failed authentication: {}", o.result)); }
+    // the service is asked about the name and UUID the client claimed in Login Start (nothing taken from a cookie that was not accepted)
+    for c in &auth_calls {
+        if let Some((n, u)) = parse_call_user(c, 3) { if n != f.claimed.0 || u != f.claimed.1 { why.push(format!("authentication service asked about {:?}/{} but the client claimed {:?}/{}", String::from_utf8_lossy(&n), u, String::from_utf8_lossy(&f.claimed.0), f.claimed.1)); } }
+    }
     // the service is asked with the secret that keys the cipher and the server's public key
     for c in &auth_calls {
         let parts: Vec<&str> = c.split(':').collect();
